@@ -479,6 +479,14 @@ def _oracle(ctx, deep, only):
                     A = _dense(ctor(dom, dom, dual, kk, parameters=par))
                     S = _dense(ctor(dom, dom, dual, kk, parameters=par, assembler="only_singular_part"))
                     scale = max(float(np.abs(A).max()), 1e-300)
+                    # the magnetic-field matrix of a coplanar support (e.g. a one-element segment) vanishes identically,
+                    # (x-y).(psi_t x psi_s) = 0; what is assembled is rounding noise, whose relative asymmetry is O(1).
+                    # Measure against the size of the electric-field matrix of the same spaces (same homogeneity); the first
+                    # thorough run after a change of the grid generator raised a FALSE alarm here.
+                    if opname == "efield":
+                        e_scale = scale
+                    else:
+                        scale = max(scale, 1e-6 * e_scale)
                     Rg = A - S
                     rsym = float(np.abs(Rg - Rg.T).max()) / scale
                     a[order] = float(np.abs(A - A.T).max()) / scale
